@@ -309,6 +309,25 @@ func (lc *laCtx) indexOb(in ssa.Instruction, x, idx ssa.Value) (IndexOb, bool) {
 			return ob, true
 		}
 		ob.Ok, ob.Why = lc.sumBelowLen(in, x, v, c, true)
+		if !ob.Ok {
+			// x[k*w + c] with c < k under w < len(x)/k: k*w <= len(x) - k, hence k*w + c < len(x)
+			if m, isM := stripConv(v).(*ssa.BinOp); isM && m.Op == token.MUL {
+				w, k := m.Y, int64(0)
+				if kk, isC := constInt(m.X); isC {
+					k = kk
+				} else if kk, isC := constInt(m.Y); isC {
+					k, w = kk, m.X
+				}
+				if k >= 1 && c < k {
+					bound := fmt.Sprintf("(len(%s) / %d)", E, k)
+					for _, a := range ob.Facts {
+						if a.L == Expr(w) && a.Op == "<" && a.R == bound {
+							ob.Ok, ob.Why = true, fmt.Sprintf("%s < %s, so %d*%s + %d < len(%s)", a.L, bound, k, a.L, c, E)
+						}
+					}
+				}
+			}
+		}
 	case "len-c":
 		ob.Ok, ob.Why = lc.lenAtLeast(in, x, c)
 	case "arrayvar":
